@@ -60,6 +60,8 @@ struct F {
     params: Vec<Param>,
     /// one parameter has the fn's own generic type `T` (the generated trait and the mock API are generic then)
     generic: bool,
+    /// `T` is declared but appears in no parameter: callers (and the un-mocked call) have to name it
+    phantom: bool,
 }
 
 impl F {
@@ -161,8 +163,15 @@ pub fn gen_case(t: &mut Tape) -> Case {
     let summary;
     let export_via_macro = t.flip();
     let (mac, exp) = if export_via_macro { ("::entrait::entrait_export", "") } else { ("::entrait::entrait", ", export") };
-    let gen_f = |t: &mut Tape, name: &str, tag: &str, deps_pool: &[u8]| F { name: name.into(), tag: tag.into(), is_async: t.chance(1, 3), deps: *t.pick(deps_pool), params: gen_params(t), generic: false };
+    let gen_f = |t: &mut Tape, name: &str, tag: &str, deps_pool: &[u8]| F { name: name.into(), tag: tag.into(), is_async: t.chance(1, 3), deps: *t.pick(deps_pool), params: gen_params(t), generic: false, phantom: false };
     // checks for one mockable fn reachable as `$call(args)` on a Unimock, API path `$api`
+    let via_call = |f: &F, args: &str| {
+        if f.phantom {
+            format!("<Unimock as TheTrait<i64>>::{}(&u{}{args})", f.name, if args.is_empty() { "" } else { ", " })
+        } else {
+            format!("u.{}({args})", f.name)
+        }
+    };
     let checks = |f: &F, api: &str, direct_path: &str, unmockable: bool, run: &mut String, classes: &mut Vec<&'static str>, nontrivial: &mut bool| {
         let args = f.args();
         let comma = if args.is_empty() { "" } else { ", " };
@@ -171,14 +180,14 @@ pub fn gen_case(t: &mut Tape) -> Case {
         let pats = f.patterns(0);
         let mut b = String::new();
         b.push_str(&format!("        let u = Unimock::new({api}.each_call(matching!({pats})).returns(String::from(\"ANSWER\")));\n"));
-        b.push_str(&format!("        let got = {};\n        let _ = rt::take();\n", wrap(format!("u.{}({args})", f.name))));
+        b.push_str(&format!("        let got = {};\n        let _ = rt::take();\n", wrap(via_call(f, &args))));
         b.push_str(&format!("        rt::expect_eq(&mut fails, \"{}: mocked call with the values in declared order\", &got, &String::from(\"ANSWER\"));\n", f.name));
         block(run, "(b) a clause matching the values in declared order answers", &b);
         if let Some(sw) = f.swapped_patterns() {
             let mut b = String::new();
             b.push_str(&format!(
                 "        let r = catch_unwind(AssertUnwindSafe(|| {{ let u = Unimock::new({api}.each_call(matching!({sw})).returns(String::from(\"ANSWER\"))); {} }}));\n        let _ = rt::take();\n",
-                wrap(format!("u.{}({args})", f.name))
+                wrap(via_call(f, &args))
             ));
             b.push_str(&format!("        if r.is_ok() {{ fails.push(\"{}: a clause expecting the argument values in a different order matched: arguments do not reach the mock in declared order\".to_string()); }}\n", f.name));
             block(run, "(b') a clause matching permuted values must not match", &b);
@@ -189,12 +198,13 @@ pub fn gen_case(t: &mut Tape) -> Case {
         if unmockable {
             let mut b = String::new();
             let direct = match f.deps {
-                2 => format!("{direct_path}{}({args})", f.name),
-                _ => format!("{direct_path}{}(&u{comma}{args})", f.name),
+                2 => format!("{direct_path}{}{}({args})", f.name, if f.phantom { "::<i64>" } else { "" }),
+                0 if f.phantom => format!("{direct_path}{}::<_, i64>(&u{comma}{args})", f.name),
+                _ => format!("{direct_path}{}{}(&u{comma}{args})", f.name, if f.phantom { "::<i64>" } else { "" }),
             };
             b.push_str("        let u = Unimock::new_partial(());\n        let _ = rt::take();\n");
             b.push_str(&format!("        let direct = {};\n        let t_direct = rt::take();\n", wrap(direct)));
-            b.push_str(&format!("        let via = {};\n        let t_via = rt::take();\n", wrap(format!("u.{}({args})", f.name))));
+            b.push_str(&format!("        let via = {};\n        let t_via = rt::take();\n", wrap(via_call(f, &args))));
             b.push_str("        if t_direct.len() != 1 { fails.push(format!(\"HARNESS: direct call traced {} entries\", t_direct.len())); }\n");
             b.push_str(&format!("        rt::expect_eq(&mut fails, \"{}: un-mocked call result vs the original fn on the mock object\", &via, &direct);\n", f.name));
             b.push_str(&format!("        rt::expect_eq(&mut fails, \"{}: un-mocked call trace (fn tag, deps = the Unimock, args) vs the original fn\", &t_via, &t_direct);\n", f.name));
@@ -203,7 +213,7 @@ pub fn gen_case(t: &mut Tape) -> Case {
             let mut b = String::new();
             b.push_str(&format!(
                 "        let r = catch_unwind(AssertUnwindSafe(|| {{ let u = Unimock::new_partial(()); {} }}));\n        let t = rt::take();\n",
-                wrap(format!("u.{}({args})", f.name))
+                wrap(via_call(f, &args))
             ));
             b.push_str(&format!("        if r.is_ok() || !t.is_empty() {{ fails.push(format!(\"{}: must not be un-mockable, but the call on a partial mock returned / ran a body (trace {{:?}})\", t)); }}\n", f.name));
             block(run, "(d) not un-mockable: the call on a partial mock panics", &b);
@@ -219,6 +229,12 @@ pub fn gen_case(t: &mut Tape) -> Case {
                 f.params[i].pk = PK::Plain;
                 f.generic = true;
                 classes.push("fn:generic_type_parameter");
+            }
+            // ... or one that no argument mentions
+            if f.deps != 3 && !f.generic && t.chance(1, 6) {
+                f.generic = true;
+                f.phantom = true;
+                classes.push("fn:type_parameter_in_no_argument");
             }
             let nd = if f.deps == 2 { ", no_deps" } else { "" };
             // the fn may come out of a `macro_rules!` expansion with two same-spelled parameters (one written in the macro, one
